@@ -191,6 +191,11 @@ def kernel_inputs(k, dt, tier, rng):
         return tuple(cols)
     small = tier == "quick"
     vals = int_values(dt, small=small)
+    if not small and rng is not None and k.args in ("ii", "id", "id0", "is"):
+        info = np.iinfo(dt)
+        vals = sorted(set(vals) | {rng.randint(info.min, info.max) for _ in range(12)}
+                      | {rng.randint(-300, 300) for _ in range(6) if info.min < 0} | {rng.randint(0, 255) for _ in range(4)} - {None})
+        vals = [v_ for v_ in vals if info.min <= v_ <= info.max]
     if k.args == "i":
         return (np.array(vals, dtype=dt),)
     if k.args in ("ii", "id", "id0"):
